@@ -179,9 +179,15 @@ func (nmds *NumpyMultiDataset) Append(cs *ColumnSeries, tbk TimeBucketKey) (err 
 		return
 	}
 	colSeriesNames := cs.GetColumnNames()
+	colSeriesShapes := cs.GetDataShapes()
 	for idx, name := range nmds.ColumnNames {
 		if name != colSeriesNames[idx] {
 			err = errors.New("data shape mismatch of ColumnSeries and NumpyMultiDataset")
+			return
+		}
+		// the column bytes are appended as they are: the element types must agree too
+		if typeStr, ok := typeMap[colSeriesShapes[idx].Type]; !ok || typeStr != nmds.ColumnTypes[idx] {
+			err = errors.New("data type mismatch of ColumnSeries and NumpyMultiDataset: column " + name)
 			return
 		}
 	}
